@@ -760,3 +760,30 @@ def main(ctx):
 
     aunits = [(fn, un, v) for fn, un in VARIANTS for v in ("same-objects", "ra-is-dec", "overlap", "strided", "reversed", "one-array-four-times")]
     ctx.lattice("aliased-arguments", aunits, one_alias, bounds=dict(views=["same-objects", "ra-is-dec", "overlap", "strided", "reversed", "one-array-four-times"]))
+
+    # ------------------------------------------------------------ raw radian longitudes far outside [0, 2 pi)
+    # longitudes given in radians whose raw difference is a whole number of DEGREE turns (360.0, 720.0 rad), of radian
+    # turns (2 pi k) or neither, at equal and at different latitudes: nothing about 360 applies to radian input
+    def one_rawrad(case, rec):
+        un, l1, b1, dl, db = case
+        l2, b2 = l1 + dl, b1 + db
+        t = true_sep(np.array([l1]), np.array([b1]), np.array([l2]), np.array([b2]), "rad")[0]
+        uout = un[1]
+        tol, vmax = limits("sphdist", uout)
+        tout = t / D2R if uout == "deg" else t
+        for form in ("scalar", "array"):
+            try:
+                if form == "scalar":
+                    got = coords.sphdist(l1, b1, l2, b2, units=list(un))
+                else:
+                    got = coords.sphdist(np.array([l1, l1]), np.array([b1, b1]), np.array([l2, l2]), np.array([b2, b2]), units=list(un))
+            except Exception as e:
+                return rec.fail(case, "sphdist raised %s: %s" % (type(e).__name__, e))
+            g = float(np.asarray(got).reshape(-1)[0])
+            if not abs(LD(g) - tout) <= max(tol, LD(4e-13) * abs(LD(dl)) / (D2R if uout == "deg" else 1)):
+                return rec.fail(case, "sphdist(%r, %r, %r, %r, units=%r) [%s] = %r, true %r" % (l1, b1, l2, b2, list(un), form, g, float(tout)))
+        rec.ok(case, outcome="rawrad", nontrivial=True, calls=2)
+
+    rrunits = [(un, l1, b1, dl, db) for un in (("rad", "rad"), ("rad", "deg")) for l1 in (0.0, 1.5, -2.0, 5.0) for b1 in (0.3, -0.2, 0.0)
+               for dl in (360.0, -360.0, 720.0, 180.0, 90.0, 2 * math.pi, 4 * math.pi, 359.0) for db in (0.0, 0.25)]
+    ctx.lattice("raw-radian-longitudes", rrunits, one_rawrad, bounds=dict(differences=[360.0, -360.0, 720.0, 180.0, 90.0, "2 pi", "4 pi", 359.0], units=["rad->rad", "rad->deg"]))
